@@ -80,6 +80,8 @@ def script_events(t, modname='vtw.tests', nth=1):
     """[(kind 'F'|'E'|'S', name)] produced by ONE execution of test t (the
     nth one in its process)."""
     s = t['s']
+    if s.startswith('garbage:'):
+        return []
     if '@' in s:
         s, k = s.split('@')
         if int(k) != nth:
